@@ -55,6 +55,8 @@ def run(ctx):
                                                  or c["dir"]["a"].startswith("both") or c["dir"]["tmp"] == "file"))
     # a valid store stays valid, never two files per user, empty work area after each operation: every Store edge ...
     storefam.run_family(ctx, seeds=[ctx.seed])
+    # the same rules along model histories (SimStore, 3 parameter sets, default switches) against one real directory each
+    storefam.histories(ctx, 200 if ctx.tier == "quick" else 2000)
     # ... and every idle point of concurrent agent histories (TraceIdle demands a passing check and an empty .tmp)
     scs = [load_scenario("load-%d" % i, ["local", ""][i % 2], ctx.seed * 13 + i, clients=8, calls=10) for i in range(4 if not thorough else 20)]
     scs += af.simulated_scenarios(ctx, 10 if not thorough else 100)
